@@ -558,8 +558,11 @@ class MetadataManager:
             return None
         if not text:
             return None
-        if text.isdigit():
-            # Legacy format: plain version number -> legacy filename
+        if text.isascii() and text.isdigit():
+            # Legacy format: plain version number -> legacy filename. ASCII only:
+            # str.isdigit() also accepts characters such as superscript or circled
+            # digits that int() rejects, and one of those in a damaged hint must
+            # read as "unparseable", not raise out of every open of the table.
             return int(text), f"v{text}.metadata.json"
         m = _METADATA_FILE_RE.match(text)
         if m:
